@@ -178,16 +178,18 @@ def run(ctx):
             ctx.violate("R2", f"pdb: no column slices found for the {kind} record (reader no longer cuts it by column?)", lo, lo.node, construct=f"pdb {kind} reader slices")
     do = prog.func("iodata.formats.pdb.dump_one")
     nrec = 0
-    for n in do.own_nodes():
-        if isinstance(n, ast.Call) and isinstance(n.func, ast.Name) and n.func.id == "print" and n.args:
-            segs = segments(do, n.args[0], ce)
-            head = segs[0].text if segs and segs[0].kind == "lit" else ""
-            if head.startswith("ATOM") or head.startswith("HETATM"):
-                nrec += 1
-                _check_writer(ctx, "R2", "pdb", "ATOM", spec["pdb"]["ATOM"], segs, do, n)
-            elif head.startswith("CONECT"):
-                nrec += 1
-                _check_writer(ctx, "R2", "pdb", "CONECT", spec["pdb"]["CONECT"], segs, do, n)
+    # the record writers: dump_one itself and the helpers of the module it hands the file to
+    for wf in [do] + [h for h in prog.callees_closure([do]) if h is not do and h.module is do.module and h.parent is None]:
+        for n in wf.own_nodes():
+            if isinstance(n, ast.Call) and isinstance(n.func, ast.Name) and n.func.id == "print" and n.args:
+                segs = segments(wf, n.args[0], ce)
+                head = segs[0].text if segs and segs[0].kind == "lit" else ""
+                if head.startswith("ATOM") or head.startswith("HETATM"):
+                    nrec += 1
+                    _check_writer(ctx, "R2", "pdb", "ATOM", spec["pdb"]["ATOM"], segs, wf, n)
+                elif head.startswith("CONECT"):
+                    nrec += 1
+                    _check_writer(ctx, "R2", "pdb", "CONECT", spec["pdb"]["CONECT"], segs, wf, n)
     if nrec < 2:
         ctx.violate("R2", "pdb writer: ATOM / CONECT print statements with a static layout not found", do, do.node, construct="pdb writer records")
 
